@@ -98,6 +98,54 @@ def _make_tree(t, names=None, route="ctor"):
     return Tree(n, names=nm, **cols)
 
 
+# ---- placements: where the tree sits in the coordinate frame ---------------------------------------------------------------------
+# "all trees" includes trees whose root / nodes have coordinates that are EXACTLY 0 without the root being the origin: planar (2D)
+# tracings with one coordinate 0 on every node, a soma put on a coordinate plane or a coordinate axis, a tree moved along one
+# axis after TranslateOrigin.  A random coordinate generator never yields them.
+PLACEMENTS = ["planar", "root-on-plane", "root-on-axis", "axis-shifted", "root-at-origin-planar", "negzero"]
+
+
+def _zero_axes(k, count):
+    """the `count` axes (1 or 2) that carry the exact zero, cycling with the running index k through all choices"""
+    pats = [p for p in AXIS_PATTERNS if len(p) == count]
+    return pats[k % len(pats)]
+
+
+def _place(rng, t, placement, k=0):
+    """the tree case t moved / flattened into the placement; returns (tree case, label of the zero axes)"""
+    t = dict(t)
+    P = [list(p) for p in t["xyz"]]
+    nz = lambda v: v if v != 0 else rng.choice([-1, 1]) * rng.randint(1, 4000) / 8.0
+    if placement == "planar":                      # a 2D tracing: one coordinate is 0 on EVERY node
+        ax = _zero_axes(k, 1)
+        P = [[0.0 if i in ax else nz(p[i]) for i in range(3)] for p in P]
+    elif placement == "root-at-origin-planar":     # a 2D tracing centred on its root: the root IS the origin (the centre modes agree)
+        ax = _zero_axes(k, 1)
+        P = [[0.0 if i in ax else p[i] - P[0][i] for i in range(3)] for p in P]
+    elif placement == "root-on-plane":             # the root on a coordinate plane, the tree anywhere
+        ax = _zero_axes(k, 1)
+        P[0] = [0.0 if i in ax else nz(P[0][i]) for i in range(3)]
+    elif placement == "root-on-axis":              # the root on a coordinate axis
+        ax = _zero_axes(k, 2)
+        P[0] = [0.0 if i in ax else nz(P[0][i]) for i in range(3)]
+    elif placement == "axis-shifted":              # root moved to the origin, then the whole tree moved along one or two axes
+        ax = _zero_axes(k // 3, 1 + (k % 2))
+        sh = [0.0 if i in ax else rng.choice([-1, 1]) * rng.randint(1, 400) / 4.0 for i in range(3)]
+        P = [[p[i] - P[0][i] + sh[i] for i in range(3)] for p in P]
+    else:                                          # negzero: the zero coordinates of the root are spelled -0.0 (what x * 0 gives for x < 0)
+        ax = _zero_axes(k, 1 + (k // 3) % 2)
+        P[0] = [-0.0 if i in ax else nz(P[0][i]) for i in range(3)]
+    # positions stay pairwise distinct (see gen.tree_case)
+    seen = set()
+    for j, p in enumerate(P):
+        while tuple(p) in seen:
+            i = rng.choice([i for i in range(3) if placement not in ("planar", "root-at-origin-planar") or i not in ax])
+            p[i] += rng.choice([-1, 1]) * rng.randint(1, 64) / 8.0
+        seen.add(tuple(p))
+    t["xyz"] = P
+    return t, "".join("xyz"[i] for i in ax)
+
+
 # ---- angle families: "all angles" includes angles of many turns (accumulated animation / registration angles) -------------------
 ANGLE_FAMILIES = ["turns", "near-quarter", "decade"]
 
@@ -294,6 +342,26 @@ class Affine(Suite):
                         out.append({"class": f"{kind}-angle-{fam}/{center}", "tree": t, "kind": kind, "a": ([] if kind != "rot" else _unit_axis(rng)) + [th],
                                     "center": center, "warm": False, "num": "float"})
                     ka += 1
+        # "all trees": every placement of the tree in the coordinate frame (see _place) x every kind, the centre modes cycling so
+        # that every kind meets every placement about the root (spelled root / soma / left out) and about the origin in every run
+        kp = 0
+        CENTRES = ["root", "default", "soma", "origin"]
+        for rep in range(6 if big else 2):
+            for pl in PLACEMENTS:
+                n = [3, 5, 2, 9, 1, 20][kp % 6] if not big else rng.choice([1, 2, 3, 5, 9, 20, 60])
+                t0 = gen.tree_case(rng, n, gen.pick_shape(rng, kp + 1), numbering=rng.choice(["sorted", "root0"]), coords="dyadic")
+                t, _axes = _place(rng, t0, pl, kp)
+                for j, (kind, a) in enumerate(_kinds(rng, kp)):
+                    center = CENTRES[(kp + j) % 4] if kind != "translate_origin" else "default"
+                    cls = kind
+                    if kind == "scale" and any(v <= 0 for v in a):
+                        cls = "scale-flat" if any(v == 0 for v in a) else "scale-mirror"
+                    c = {"class": f"{cls}/{center}/place-{pl}", "tree": t, "kind": kind, "a": a, "center": center, "placement": pl,
+                         "warm": rng.random() < 0.3, "num": rng.choice(NUMS) if kind in ("translate", "scale") else "float"}
+                    if kind == "affine_m":
+                        c["mdtype"] = rng.choice(MDTYPES)
+                    out.append(c)
+                kp += 1
         return out
 
     def run(self, case):
@@ -376,6 +444,11 @@ class Affine(Suite):
             out.append((f"{case['kind']}-wrong-map/{self._center(case)}",
                         f"{case['kind']}{case['a']} center={case['center']}: node {i} at {P[i].tolist()} (root {P[0].tolist()}) went to "
                         f"{got[i].tolist() if i >= 0 else got.shape}, stated map gives {exp[i].tolist() if i >= 0 else exp.shape}{how}"))
+        # "the chosen centre (… the root when requested) stays fixed under scaling and rotation": node 0 is the root
+        if (case["kind"] in ("scale", "rotx", "roty", "rotz", "rot") and self._center(case) == "root" and got.shape == exp.shape
+                and not np.allclose(got[0], P[0], atol=2e-3 + 2e-5 * np.abs(P[0]).max(), rtol=0)):
+            out.append((f"{case['kind']}-centre-moved/root", f"{case['kind']}{case['a']} center={case['center']}: the root at {P[0].tolist()} is the "
+                        f"centre and must stay fixed, it went to {got[0].tolist()}{how}"))
         if res["pid"] != t["pids"] or res["type"] != t["types"] or res["id"] != list(range(t["n"])):
             out.append(("topology-or-type-changed", "parent relation / types / ids changed by a geometric transform"))
         if not np.allclose(res["r"], np.array(t["r"], dtype=np.float32).astype(np.float64)):
@@ -449,6 +522,24 @@ class Pipeline(Suite):
                         steps.append(_step(rng, rng.choice(STEP_COMBOS)))
                     cm = ">".join(_step_center(s) for s in steps)
                     out.append({"class": f"pipeline/{cm}", "tree": t, "steps": steps})
+        # "a tree moved along one axis after TranslateOrigin": TranslateOrigin, a translation with one or two components exactly 0,
+        # then every kind about the root — and the same last step on trees of every placement (see _place)
+        kp = 0
+        for rep in range(3 if big else 1):
+            for c3 in STEP_COMBOS:
+                if c3[1] != "root":
+                    continue
+                n = [3, 5, 9, 2][kp % 4] if not big else rng.choice([2, 3, 5, 9, 20, 60])
+                t = gen.tree_case(rng, n, gen.pick_shape(rng, kp + 1), numbering=rng.choice(["sorted", "root0"]), coords="dyadic")
+                ax = _zero_axes(kp // 2, 1 + kp % 2)
+                sh = [0.0 if i in ax else rng.choice([-1, 1]) * rng.randint(1, 160) / 4 for i in range(3)]
+                steps = [{"kind": "translate_origin", "a": [], "center": "default"}, {"kind": "translate", "a": sh, "center": "origin"}, _step(rng, c3)]
+                out.append({"class": "pipeline/axis-shift>root", "tree": t, "steps": steps})
+                pl = PLACEMENTS[kp % len(PLACEMENTS)]
+                tp, _axes = _place(rng, t, pl, kp)
+                steps = [_step(rng, c3), _step(rng, rng.choice(STEP_COMBOS))]
+                out.append({"class": f"pipeline/place-{pl}/" + ">".join(_step_center(st) for st in steps), "tree": tp, "steps": steps})
+                kp += 1
         return out
 
     def run(self, case):
